@@ -429,6 +429,25 @@ def t_cpp_parallel(facts, res, tier):
         ok = any(n.get("k") == "assign" and "regex_sets.last_mut()" in expr_text(n["l"]) and "RegexSet::new(self.defs_ex_ex.last().unwrap())" in expr_text(n["r"]) for n in walk_inl(facts, fn))
         if not ok:
             res.fail(key, facts.where(fn), "%s does not rebuild the last chunk's RegexSet from defs_ex_ex" % fname)
+        # order: the element goes into the last chunk, that chunk's set is rebuilt, and only then may a new
+        # chunk be opened - `last()` changes meaning at the roll-over
+        key = "T-CPP-PARALLEL:%s:order" % fname
+        seq = []
+        for n in walk_inl(facts, fn):
+            if n.get("k") == "mcall" and n["method"] == "push":
+                m = re.match(r"^self\.(\w+)(\.last_mut\(\)\.unwrap\(\))?$", expr_text(n["recv"]))
+                if m and m.group(1) in tables + ["regex_sets"]:
+                    seq.append(("elem" if m.group(2) else "chunk", m.group(1)))
+            if n.get("k") == "assign" and "regex_sets.last_mut()" in expr_text(n["l"]):
+                seq.append(("rebuild", "regex_sets"))
+        res.inst(key, True, {"sequence": ["%s:%s" % x for x in seq]})
+        kinds = [x[0] for x in seq]
+        if "rebuild" in kinds and "chunk" in kinds and "elem" in kinds:
+            last_elem = max(i for i, x in enumerate(kinds) if x == "elem")
+            first_chunk = min(i for i, x in enumerate(kinds) if x == "chunk")
+            rb = [i for i, x in enumerate(kinds) if x == "rebuild"]
+            if not any(last_elem < i < first_chunk for i in rb):
+                res.fail(key, facts.where(fn), "%s: the regex set is not rebuilt between the push into the last chunk and the opening of a new chunk (sequence %s): at the roll-over `last()` is the new, empty chunk, so the full chunk keeps a set without its newest macro and that macro is never expanded" % (fname, ["%s:%s" % x for x in seq]))
         # roll-over: all four pushed under one condition
         key = "T-CPP-PARALLEL:%s:rollover" % fname
         res.inst(key)
